@@ -56,11 +56,12 @@ def configs(pid, quick):
     if pid == "C25":
         if quick:
             return [("2hosts", C({2, 3}, {2}, events=2, env={"fail", "status", "mode", "topo"}))]
-        return [("1host", C({2}, {2}, events=3, env={"fail", "status", "mode", "auth"})),
-                ("topology", C({2, 3}, {2}, events=3, env={"topo", "mode", "fail"})),
-                ("2sessions", C({2}, {2}, sessions={1, 2}, events=2, env={"fail", "status", "mode"})),
+        # small graphs first: what they leave of the replay budget goes to the large ones
+        return [("2sessions-fine", C({2}, {2}, sessions={1, 2}, events=1, env={"fail", "status", "mode"}, fine=True)),
                 ("ignored", C({2, 3}, {2, 3}, ignored={3}, events=2, env={"fail", "status", "mode"})),
-                ("2sessions-fine", C({2}, {2}, sessions={1, 2}, events=1, env={"fail", "status", "mode"}, fine=True))]
+                ("2sessions", C({2}, {2}, sessions={1, 2}, events=2, env={"fail", "status", "mode"})),
+                ("1host", C({2}, {2}, events=3, env={"fail", "status", "mode", "auth"})),
+                ("topology", C({2, 3}, {2}, events=3, env={"topo", "mode", "fail"}))]
     if quick:
         return [("ctl", C({2}, {2}, events=2, env={"fail", "mode", "ctl", "status"}))]
     return [("ctl", C({2}, {2}, events=3, env={"fail", "mode", "ctl", "status"})),
